@@ -10,6 +10,7 @@ import (
 	"strings"
 	"sync"
 
+	"gorm.io/gorm"
 	"gorm.io/gorm/schema"
 )
 
@@ -381,6 +382,23 @@ type SzNote struct {
 	Other  SzSecret
 }
 
+// ---- softdel: a relation field declared BEFORE the soft-delete field (the delete/query clauses of
+// DeletedAt and the relation are attached after the schema is published) ----
+type SdP struct {
+	ID        int64
+	Name      string
+	Val       int64
+	Kids      []SdK
+	DeletedAt gorm.DeletedAt
+}
+type SdK struct {
+	ID        int64
+	Name      string
+	Val       int64
+	SdPID     int64
+	DeletedAt gorm.DeletedAt
+}
+
 // ---- bad (protocol rounds only) ----
 type BadP struct {
 	ID   int64
@@ -504,6 +522,8 @@ func init() {
 		td[FnP5]("fan", false, ho("Kid", "FnKid", "FnP5ID")),
 		td[SzDoc]("serial", false),
 		td[SzNote]("serial", false),
+		td[SdP]("softdel", false, hm("Kids", "SdK", "SdPID")),
+		td[SdK]("softdel", false),
 	}
 	Families = map[string][]int{}
 	for i, f := range defs {
